@@ -10,11 +10,117 @@ pub static HEAP_FILL: AtomicU8 = AtomicU8::new(0);
 pub static HEAP_FILLED_BLOCKS: AtomicU64 = AtomicU64::new(0);
 
 #[cfg_attr(miri, allow(dead_code))]
+/// Guard mode (per-run knob): allocations of at least `GUARD_MIN` bytes are placed at the END of
+/// their own page range inside a reserved arena, directly in front of inaccessible pages, and
+/// are made inaccessible again when freed. A read or write past the end of a large buffer - by
+/// any means, raw pointers included - or a use after free then kills the session with SIGSEGV
+/// natively, at full speed and for frames far too large for Miri; the driver reports a session
+/// killed by a signal as I1 (C07). Small allocations are left to the hooks, to std's
+/// debug-assertion checks and to Miri.
+pub static GUARD_MODE: AtomicU8 = AtomicU8::new(0);
+pub static GUARDED_BLOCKS: AtomicU64 = AtomicU64::new(0);
+const GUARD_MIN: usize = 1024;
+const PAGE: usize = 4096;
+const GUARD_LEN: usize = 64 * 1024;
+const ARENA_LEN: usize = 1 << 39; // 512 GiB of address space, never committed
+static ARENA_BASE: std::sync::atomic::AtomicUsize = std::sync::atomic::AtomicUsize::new(0);
+static ARENA_NEXT: std::sync::atomic::AtomicUsize = std::sync::atomic::AtomicUsize::new(0);
+
+extern "C" {
+    fn mmap(addr: *mut u8, len: usize, prot: i32, flags: i32, fd: i32, off: i64) -> *mut u8;
+    fn mprotect(addr: *mut u8, len: usize, prot: i32) -> i32;
+}
+const PROT_NONE: i32 = 0;
+const PROT_RW: i32 = 3;
+const MAP_PRIVATE: i32 = 2;
+const MAP_FIXED: i32 = 0x10;
+const MAP_ANONYMOUS: i32 = 0x20;
+const MAP_NORESERVE: i32 = 0x4000;
+
+fn arena_base() -> usize {
+    let b = ARENA_BASE.load(Ordering::Acquire);
+    if b != 0 {
+        return if b == usize::MAX { 0 } else { b };
+    }
+    // SAFETY: reserving fresh inaccessible address space; no existing mapping is touched
+    let p = unsafe { mmap(std::ptr::null_mut(), ARENA_LEN, PROT_NONE, MAP_PRIVATE | MAP_ANONYMOUS | MAP_NORESERVE, -1, 0) } as usize;
+    let got = if p == usize::MAX || p == 0 { usize::MAX } else { p };
+    match ARENA_BASE.compare_exchange(0, got, Ordering::AcqRel, Ordering::Acquire) {
+        Ok(_) => {
+            if got != usize::MAX {
+                ARENA_NEXT.store(got, Ordering::Release);
+            }
+            if got == usize::MAX {
+                0
+            } else {
+                got
+            }
+        }
+        Err(other) => {
+            // somebody else reserved first; our reservation stays unused (address space only)
+            if other == usize::MAX {
+                0
+            } else {
+                other
+            }
+        }
+    }
+}
+fn in_arena(p: *mut u8) -> bool {
+    let b = ARENA_BASE.load(Ordering::Acquire);
+    b != 0 && b != usize::MAX && (p as usize) >= b && (p as usize) < b + ARENA_LEN
+}
+/// data pages needed for `size` bytes ending at a page boundary with `align`
+fn guarded_alloc(l: Layout) -> *mut u8 {
+    let base = arena_base();
+    if base == 0 || l.align() > PAGE {
+        return std::ptr::null_mut();
+    }
+    let data_len = (l.size() + l.align() + PAGE - 1) / PAGE * PAGE;
+    let total = data_len + GUARD_LEN;
+    // wait until the first reserver has published the bump pointer
+    while ARENA_NEXT.load(Ordering::Acquire) == 0 {
+        std::hint::spin_loop();
+    }
+    let at = ARENA_NEXT.fetch_add(total, Ordering::AcqRel);
+    if at + total > base + ARENA_LEN {
+        return std::ptr::null_mut(); // arena used up: fall back to the system allocator
+    }
+    // SAFETY: the range lies inside our own reserved arena and is handed out exactly once
+    if unsafe { mprotect(at as *mut u8, data_len, PROT_RW) } != 0 {
+        return std::ptr::null_mut();
+    }
+    let end = at + data_len;
+    let start = (end - l.size()) & !(l.align() - 1);
+    GUARDED_BLOCKS.fetch_add(1, Ordering::Relaxed);
+    start as *mut u8
+}
+fn guarded_free(p: *mut u8, l: Layout) {
+    let start = p as usize;
+    let base = start & !(PAGE - 1);
+    let end = (start + l.size() + PAGE - 1) & !(PAGE - 1);
+    // give the memory back and leave the range inaccessible for good (use after free faults)
+    // SAFETY: the range is the one `guarded_alloc` made accessible for this block, inside our arena
+    unsafe {
+        let _ = mmap(base as *mut u8, end - base, PROT_NONE, MAP_PRIVATE | MAP_ANONYMOUS | MAP_NORESERVE | MAP_FIXED, -1, 0);
+    }
+}
+
 pub struct FillAlloc;
 // SAFETY: forwards to `System`; additionally writes into blocks it has just obtained from, or is
 // about to return to, `System` — memory this allocator owns at that moment.
 unsafe impl GlobalAlloc for FillAlloc {
     unsafe fn alloc(&self, l: Layout) -> *mut u8 {
+        if l.size() >= GUARD_MIN && GUARD_MODE.load(Ordering::Relaxed) != 0 {
+            let p = guarded_alloc(l);
+            if !p.is_null() {
+                let f = HEAP_FILL.load(Ordering::Relaxed);
+                if f != 0 {
+                    std::ptr::write_bytes(p, f, l.size());
+                }
+                return p;
+            }
+        }
         let p = System.alloc(l);
         let f = HEAP_FILL.load(Ordering::Relaxed);
         if f != 0 && !p.is_null() {
@@ -24,9 +130,19 @@ unsafe impl GlobalAlloc for FillAlloc {
         p
     }
     unsafe fn alloc_zeroed(&self, l: Layout) -> *mut u8 {
+        if l.size() >= GUARD_MIN && GUARD_MODE.load(Ordering::Relaxed) != 0 {
+            let p = guarded_alloc(l);
+            if !p.is_null() {
+                return p; // fresh anonymous pages are zero
+            }
+        }
         System.alloc_zeroed(l)
     }
     unsafe fn dealloc(&self, p: *mut u8, l: Layout) {
+        if in_arena(p) {
+            guarded_free(p, l);
+            return;
+        }
         let f = HEAP_FILL.load(Ordering::Relaxed);
         if f != 0 {
             std::ptr::write_bytes(p, !f, l.size());
@@ -35,7 +151,7 @@ unsafe impl GlobalAlloc for FillAlloc {
     }
     unsafe fn realloc(&self, p: *mut u8, l: Layout, new_size: usize) -> *mut u8 {
         let f = HEAP_FILL.load(Ordering::Relaxed);
-        if f == 0 {
+        if f == 0 && !in_arena(p) && !(new_size >= GUARD_MIN && GUARD_MODE.load(Ordering::Relaxed) != 0) {
             return System.realloc(p, l, new_size);
         }
         // move always, so that the old block is poisoned and the grown tail is filled
